@@ -1,5 +1,6 @@
 from pathlib import Path
 from typing import Union, Optional
+from copy import deepcopy
 import os
 import dill
 import numpy as np
@@ -675,6 +676,10 @@ class StateManager:
         if value is None:
             return None
         if isinstance(value, np.ndarray):
+            if value.dtype == object:
+                # ndarray.copy() is shallow for object arrays (e.g. blobs
+                # holding per-particle arrays): copy the elements too.
+                return deepcopy(value)
             return value.copy()
         return value
 
